@@ -245,6 +245,7 @@ def run(M, c):
     r = random.Random(c["seed"])
     if k == "durations":
         for i in range(c["n"]):
+            M.progress()
             s, y, mo, rest, frac, tag, nd = gen_duration(r)
             M.cls(tag, nd, frac)
             judge_duration(M, s, y, mo, rest, tag, frac)
@@ -253,6 +254,7 @@ def run(M, c):
         return
     if k == "invalid":
         for i in range(c["n"]):
+            M.progress()
             s, tag = INVALID[i % len(INVALID)]
             if i >= len(INVALID):
                 # vary the numbers
@@ -263,6 +265,7 @@ def run(M, c):
     if k == "large":
         specials = [2**31 - 1, 2**31, 2**32 - 1, 2**32, 2**32 + 1, 10**10, 10**10 - 1, 2**63, 2**64, 999999999, 10**9, 4294967296 + 86400, 99999999999]
         for i in range(c["n"]):
+            M.progress()
             u = r.choice("YMWDHMS")
             in_time = u in "HMS" and not (u == "M" and i % 2)
             n = r.choice(specials) + r.choice((0, 0, 1, -1, r.randrange(1000)))
@@ -286,6 +289,7 @@ def run(M, c):
         return
     if k == "intervals":
         for i in range(c["n"]):
+            M.progress()
             u1 = gen.modern_instant(r) // US * US + r.choice((0, r.randrange(US)))
             u2 = gen.modern_instant(r) // US * US
             off1 = r.choice((None, 0, r.randrange(-1439, 1440)))
